@@ -80,6 +80,11 @@ int main(int argc, char** argv) {
          bool used[25] = {false};
          for (int k = 0; k < n; ++k) { const int j = r.chance(0.3) ? 3 : r.range(25); if (used[j]) continue; used[j] = true; *q[j] *= r.chance(0.8) ? std::pow(10.0, r.U(1, 4)) : std::pow(10.0, -r.U(0.5, 1.5)); }
       }
+      if (hier) {   // neutralino/chargino sector: eigenvalues are determined to eps x (largest/smallest parameter); keep that below 3e4 (3e-12 x O(10) against the 1e-9 of the property)
+         double* g3[] = {&p.mu, &p.m1, &p.m2};
+         double lo = 1e300; for (double* q : g3) lo = std::min(lo, std::fabs(*q));
+         for (double* q : g3) if (std::fabs(*q) > 3e4 * lo) *q *= 3e4 * lo / std::fabs(*q);
+      }
       J c = p.json(); c.i("hierarchy", hier);
       try {
          // the flipped twin: a fresh object, a copy of the calculated original re-filled through the setters, or a long-lived object re-filled for every case (scan loop)
